@@ -1,7 +1,83 @@
 import PydlVerif.Model.JsonUtil
+import PydlVerif.Model.Mangle
 open Lean
 namespace PydlVerif.Driver.C12
+open PydlVerif PydlVerif.Mangle
 
-def handle (_j : Json) : Except String Json := throw "C12: no model operations yet"
+def cap (j : Json) : Except String (Cap Float) := do
+  match ← J.list J.float j with
+  | [x, y, z, cm] => pure ⟨x, y, z, cm⟩
+  | _ => throw "cap: need 4 floats"
+
+def point (j : Json) : Except String (Point Float) := do
+  match ← J.list J.float j with
+  | [a, b, c] => pure (.xyz a b c)
+  | [ra, dec] => pure (.radec ra dec)
+  | _ => throw "point: need 2 or 3 floats"
+
+def poly (j : Json) : Except String (Polygon Float) := do
+  pure { ncaps := ← J.fNat j "n", useCaps := ← J.fNat j "u", rows := ← J.list cap (← J.fld j "rows") }
+
+def capJ (c : Cap Float) : Json := J.ofList J.ofFloat [c.x, c.y, c.z, c.cm]
+
+def polyJ (P : Polygon Float) : Json :=
+  Json.mkObj [("n", J.ofNat P.ncaps), ("u", J.ofNat P.useCaps), ("rows", J.ofList capJ P.rows)]
+
+def resJ {β} (f : β → Json) : Except String β → Json
+  | .ok v => Json.mkObj [("ok", f v)]
+  | .error e => Json.mkObj [("err", Json.str e)]
+
+def brow (j : Json) : Except String BRow := do
+  match ← J.list J.nat j with
+  | [i, n] => pure ⟨i, n⟩
+  | _ => throw "brow: need [icap, ncaps]"
+
+def handle (j : Json) : Except String Json := do
+  let op ← J.fStr j "op"
+  match op with
+  | "capdist" =>
+    let c ← cap (← J.fld j "cap")
+    let pts ← J.list point (← J.fld j "pts")
+    pure (Json.mkObj [("d", J.ofList J.ofFloat (pts.map (capDistance c))),
+                      ("in", J.ofList Json.bool (pts.map (isInCap c)))])
+  | "inpoly" =>
+    let P ← poly (← J.fld j "poly")
+    let pts ← J.list point (← J.fld j "pts")
+    let n ← J.fInt j "ncaps"
+    pure (resJ (J.ofList Json.bool) (isInPolygon P pts n))
+  | "window" =>
+    let n ← J.fInt j "ncaps"
+    let pts ← J.list point (← J.fld j "pts")
+    let conv := (J.fBool j "convert").toOption.getD false
+    let src : Except String (List (Polygon Float)) ←
+      (match j.getObjVal? "blist" with
+       | .ok bl => do
+         let bl ← J.list brow bl
+         let bc ← J.list cap (← J.fld j "bcaps")
+         pure (balkansAssemble bl bc)
+       | .error _ => do
+         let ps ← J.list poly (← J.fld j "polys")
+         pure (pure ps))
+    let r : Except String (List (Bool × Int)) := do
+      let ps ← src
+      isInWindow (if conv then ps.map ofRecord else ps) pts n
+    pure (resJ (J.ofList fun (b, i) => Json.arr #[Json.bool b, J.ofInt i]) r)
+  | "usecaps" =>
+    let rows ← J.list cap (← J.fld j "rows")
+    let u ← J.fNat j "u"
+    let idx ← J.fNats j "idx"
+    let add ← J.fBool j "add"
+    let tol ← J.fFloat j "tol"
+    let ad ← J.fBool j "ad"
+    let an ← J.fBool j "an"
+    pure (J.ofNat (setUseCaps rows u idx add tol ad an))
+  | "record" =>
+    let P ← poly (← J.fld j "poly")
+    pure (polyJ (ofRecord P))
+  | "balkans" =>
+    let bl ← J.list brow (← J.fld j "blist")
+    let bc ← J.list cap (← J.fld j "bcaps")
+    pure (resJ (J.ofList polyJ) (balkansAssemble bl bc))
+  | _ => throw s!"C12: unknown op {op}"
 
 end PydlVerif.Driver.C12
